@@ -424,7 +424,46 @@ func runC19(c *Ctx) {
 	// stored entity carries the IDs of the value it stores
 	for _, pair := range [][2]string{{"app/store.newStoredRequest", "app/store.storedRequest"}, {"app/store.newStoredResponse", "app/store.storedResponse"}} {
 		if f := c.need(p, "C19.K", pair[0]); f != nil {
-			if as := AllocsOf(f, pair[1]); len(as) == 1 {
+			as := AllocsOf(f, pair[1])
+			if len(as) > 1 {
+				// the entity being built is the one whose ID fields are filled in here
+				var built []*ssa.Alloc
+				for _, a := range as {
+					if _, ok := LiteralField(a, "BackendID"); ok {
+						built = append(built, a)
+					}
+				}
+				as = built
+			}
+			if len(as) != 1 {
+				c.Unk("C19.K", pair[0]+":ids", p, f.Pos(), fmt.Sprintf("%d values of %s are built in %s: the rule cannot tell which one is stored", len(as), pair[1], pair[0]))
+			} else {
+				// the stored bytes are the blob of the value's own contents: the blob field is only ever
+				// assigned (the deref of) what newBlob returned in this call
+				blobFld := map[string]string{"app/store.storedRequest": "RequestBytes", "app/store.storedResponse": "ResponseBytes"}[pair[1]]
+				badBlob := ""
+				nblob := 0
+				EachInstrRaw(f, func(i ssa.Instruction) {
+					st, isSt := i.(*ssa.Store)
+					if !isSt {
+						return
+					}
+					base, fld, isF := FieldAddrOf(st.Addr)
+					if !isF || fld != blobFld || NamedTypeRel(base.Type()) != pair[1] {
+						return
+					}
+					nblob++
+					v := st.Val
+					if ld, isLd := v.(*ssa.UnOp); isLd && ld.Op == token.MUL {
+						v = ld.X
+					}
+					if CallResult(v, 0, ModPath+"/app/store.newBlob") == nil {
+						badBlob = "the field " + blobFld + " is assigned " + PathOf(st.Val) + " at " + p.Pos(st.Pos())
+					}
+				})
+				c.Check("C19.K", pair[0]+":bytes-are-the-blob-of-the-stored-value", p, f.Pos(), badBlob == "" && nblob > 0, "the entity's "+blobFld+" is only ever what newBlob made of the value's contents in this call", badBlob+": the entity stored under this (backend ID, request ID) then carries bytes that are not the ones handed in — an agent fetching the request, or the client waiting for the response, reads back something else than was stored")
+			}
+			if len(as) == 1 {
 				okf := true
 				for _, fld := range []string{"BackendID", "RequestID"} {
 					v, ok := LiteralField(as[0], fld)
